@@ -2,6 +2,7 @@ package harness
 
 import (
 	"fmt"
+	"regexp"
 	"sort"
 	"strings"
 
@@ -83,6 +84,8 @@ func fmtEntry(e types.Entry, ok bool) string {
 	}
 	return fmt.Sprintf("%s%s=%q", e.Key, t, e.Value)
 }
+
+var c10L0Name = regexp.MustCompile(`^/d/0-[0-9]+\.db$`)
 
 // c10NoLevels switches the level-placement variants off (set per unit for the largest configurations)
 var c10NoLevels bool
@@ -202,6 +205,19 @@ func c10CheckRaw(c *Ctx, l c10Layout, keys []string, tss []uint64, fpFamilies []
 			fsx := base.Clone() // always start from the all-L0 directory
 			vos.SetFS(fsx)
 			names := fsx.Names()
+			// the variants are built by renaming table files, which presupposes the naming scheme <level>-<idx>.db;
+			// under any other scheme they are skipped (a cap, not a verdict)
+			scheme := true
+			for _, n := range names {
+				if !c10L0Name.MatchString(n) {
+					scheme = false
+				}
+			}
+			if !scheme {
+				vos.SetFS(base)
+				c.Cap("table files are not named /d/0-<idx>.db: level-placement variants skipped")
+				break
+			}
 			for i, n := range names {
 				lvl := i
 				if variant == 1 {
